@@ -106,6 +106,11 @@ class Popen:
         finally:
             set_spawning_popen(None)
 
+        # get_preparation_data() also makes sure that the resource tracker is
+        # running and re-launches it if it died in the meantime: inherit the
+        # descriptor the child is told about, not one read before that.
+        tracker_fd = prep_data["tracker_args"]["fd"]
+
         try:
             parent_r, child_w = os.pipe()
             child_r, parent_w = os.pipe()
